@@ -1,6 +1,8 @@
 """C13 — imported lattices mean what the lattice file says
 
-B2: Elegant / Bmad dispatch tables regenerated from the converters' if/elif chains must equal the reviewed tables.
+B2: Elegant / Bmad dispatch tables regenerated from the converters' if/elif chains must equal the reviewed tables;
+    the converters' continuation passes regenerated from source must be the modelled ones.
+B1: text front end (read_clean_lines, merge_delimiter_continued_lines, rpn) vs CheetahModel/Text.lean (text_corr.py).
 F : random abstract lattices rendered in many spellings, imported, compared with a reference denotation (fals/C13.py).
 """
 from __future__ import annotations
@@ -14,14 +16,15 @@ except ImportError:  # falsifier module not present
 META = {
     "level": "proof",
     "rule": 'B2 table rows: one per element type per dialect' + ((" | falsifier: " + F.META.get("rule", "")) if F and hasattr(F, "META") else ""),
-    "modelled": 'converter dispatch (ConverterTables.lean)',
-    "gap": 'partial: textual layer (regex, eval) and line expansion are covered differentially only',
+    "modelled": 'converter dispatch (ConverterTables.lean); comment/blank/case cleaning, continuation merging, RPN reordering (Text.lean)',
+    "gap": 'partial: the statement-level regex chain, eval and line expansion are covered differentially only',
     "assumptions": ((F.META.get("assumptions", []) if F and hasattr(F, "META") else []) + []),
 }
 
 
 def run(ctx) -> None:
-    pass
+    from text_corr import run_text_correspondence
+    run_text_correspondence(ctx, "C13", 300 if ctx.tier == "quick" else 4000)
     if F is not None:
         F.run(ctx)
 
